@@ -1,6 +1,7 @@
 import Tmcg.Driver
 import Tmcg.Model.Rabin
 import Tmcg.Model.RabinGen
+import Tmcg.Model.PrimeGen
 /-
   Line-protocol handlers of area "rabin" (property C10); the line formats are listed at the top of
   harness/drv_rabin.cc.
@@ -221,7 +222,65 @@ def hGenerate : Handler
     some (genReplay name email keysize (nizk = 1) fuel coins plog log)
   | _ => none
 
-def handlers : List (String × Handler) := [
+/-! ### prime generators (area "primegen", property C09) -/
+
+/-- `[n:reps:0/1,…]`: answers of `mpz_probab_prime_p(n, reps)` -/
+def pPrimeLog2 (s : String) : Option (List ((Int × Nat) × Bool)) := do
+  let l ← pList s
+  l.mapM fun e => match e.splitOn ":" with
+    | [c, r, a] => do let c ← pInt c; let r ← pNat r; some ((c, r), a = "1")
+    | _ => none
+
+def showGenErr (e : Err) : String := if e = .oob then "exhausted" else toString e
+
+/-- one run of generator `fn` with default `d` for unknown oracle queries -/
+def primegenRun (fn : String) (psize qsize mr : Nat) (kin : Int) (fuel : Nat) (coins : List Bytes)
+    (plog : List ((Int × Nat) × Bool)) (d : Bool) : String :=
+  let O : PrimeGen.Oracle := fun n r => (plog.lookup (n, r)).getD d
+  let safe (r : Except Err ((Nat × Nat) × List Bytes)) : String :=
+    match r with
+    | .ok ((p, q), _) => s!"{p} {q} 2"
+    | .error e => showGenErr e
+  match fn with
+  | "sprime" => safe (PrimeGen.sprimeTest O .none PrimeGen.PRIMES qsize mr fuel coins)
+  | "smprime" => safe (PrimeGen.sprimeTest O .none PrimeGen.MPRIMES qsize mr fuel coins)
+  | "sprime2g" => safe (PrimeGen.sprimeTest O .mod8 PrimeGen.PRIMES qsize mr fuel coins)
+  | "sprime3mod4" => safe (PrimeGen.sprimeTest O .mod4 PrimeGen.PRIMES (psize - 1) mr fuel coins)
+  | "sprime_naive" => safe (PrimeGen.sprimeNaive O .none PrimeGen.PRIMES qsize mr fuel coins)
+  | "smprime_naive" => safe (PrimeGen.sprimeNaive O .none PrimeGen.MPRIMES qsize mr fuel coins)
+  | "sprime_noninc" => safe (PrimeGen.sprimeNoninc O .none PrimeGen.PRIMES qsize mr fuel coins)
+  | "lprime" =>
+    (match PrimeGen.lprime O psize qsize mr fuel coins with
+      | .ok ((p, q, k), _) => s!"{p} {q} {k}"
+      | .error e => showGenErr e)
+  | "lprime_prefix" =>
+    (match PrimeGen.lprimePrefix O kin psize qsize mr fuel coins with
+      | .ok ((p, q, k), _) => s!"{p} {q} {k}"
+      | .error e => showGenErr e)
+  | "oprime" =>
+    (match PrimeGen.oprime O psize mr fuel coins with
+      | .ok (p, _) => s!"{p} 0 0"
+      | .error e => showGenErr e)
+  | "oprime_noninc" =>
+    (match PrimeGen.oprimeNoninc O psize mr fuel coins with
+      | .ok (p, _) => s!"{p} 0 0"
+      | .error e => showGenErr e)
+  | _ => "unknown-generator"
+
+/-- primegen.<fn> psize qsize mr kin fuel [coins] [n:reps:ans,…] => p q k | exhausted | throw:invalid_argument -/
+def hPrimegen (fn : String) : Handler
+  | [psize, qsize, mr, kin, fuel, coins, plog] => do
+    let psize ← pNat psize; let qsize ← pNat qsize; let mr ← pNat mr; let kin ← pInt kin; let fuel ← pNat fuel
+    let coins ← pList coins; let coins ← coins.mapM pHex; let plog ← pPrimeLog2 plog
+    let r1 : String := primegenRun fn psize qsize mr kin fuel coins plog true
+    let r2 : String := primegenRun fn psize qsize mr kin fuel coins plog false
+    some (if r1 == r2 then r1 else "oracle-mismatch")
+  | _ => none
+
+def primegenFns : List String := ["sprime", "smprime", "sprime2g", "sprime3mod4", "sprime_naive", "smprime_naive",
+  "sprime_noninc", "lprime", "lprime_prefix", "oprime", "oprime_noninc"]
+
+def handlers : List (String × Handler) := (primegenFns.map fun fn => ("primegen." ++ fn, hPrimegen fn)) ++ [
   ("rabin.generate", hGenerate),
   ("rabin.sqrtmp", hSqrtmp), ("rabin.sqrtmp.det", hSqrtmpDet), ("rabin.qrmn", hQrmn),
   ("rabin.sqrtmn.r", hSqrtmnR), ("rabin.sqrtmn.det", hSqrtmnDet),
